@@ -242,157 +242,4 @@ theorem applyBitmapSeg_ok (h C k : Nat) (t : Tree) (c : Cached) (rest : List Cac
       · rw [if_neg hq, Nat.min_eq_right (by omega)]; exact Pos.done
   · rw [hl, hn, Nat.succ_mul]; rw [hn] at hlt; omega
 
-/-- `apply_next_segments` keeps the invariant -/
-theorem apply_inv (No Nk : Nat) (s : St) (hi : Inv No Nk s) : Inv No Nk s.applyNextSegments := by
-  obtain ⟨nb, no, nr, nk⟩ := next_values No Nk s hi
-  obtain ⟨par, bm, clean, out, rp, ker, noMis, fin⟩ := hi
-  have hcs := chunks_small No par.NoS
-  obtain ⟨ob, pb⟩ := bm.pos'
-  have hnb := nb ob pb
-  unfold St.applyNextSegments
-  rw [hnb]
-  cases ob with
-  | some k =>
-    simp only [St.applyNextWith]
-    cases hr : removeFirstIdx s.bm.cache k with
-    | none => exact ⟨par, bm, clean, out, rp, ker, noMis, fin⟩
-    | some pr =>
-      obtain ⟨c, rest⟩ := pr
-      obtain ⟨hc, hci, hrest⟩ := removeFirstIdx_mem _ _ _ _ hr
-      simp only
-      have hbs : s.bmSize = mmr (Dsg.expectedChunks No) := par.bms
-      have key := applyBitmapSeg_ok s.hB (Dsg.expectedChunks No) k s.bm c rest par.hB hcs bm pb
-        (bm.own c hc) hci (clean c hc) hrest
-      rw [← hbs] at key
-      obtain ⟨a, b, c'⟩ := key
-      refine ⟨par, a, ?_, out, rp, ker, noMis, ?_⟩
-      · intro x hx
-        have : x ∈ rest := by rw [← c']; exact hx
-        exact clean x (hrest x this)
-      · intro hf
-        have := fin hf
-        have := pb.lt_of_some
-        omega
-  | none =>
-    simp only [St.applyNextWith]
-    have ebm := pb.eq_of_none
-    obtain ⟨oo, po⟩ := out.pos'
-    obtain ⟨orr, pr⟩ := rp.pos'
-    obtain ⟨ok', pk⟩ := ker.pos'
-    have hso : s.outSize = mmr No := par.out
-    have hsk : s.kerSize = mmr Nk := par.ker
-    have ka := applyTree_ok true true s.hO No (s.nextRequired .output) s.out out
-      (reach_of_pos po (fun _ => par.hO1) _ (fun k hk => by subst hk; exact no k po))
-    have kb := applyTree_ok true true s.hR No (s.nextRequired .rangeproof) s.rp rp
-      (reach_of_pos pr (fun _ => par.hR1) _ (fun k hk => by subst hk; exact nr k pr))
-    have kc := applyTree_ok false true s.hK Nk (s.nextRequired .kernel) s.ker ker
-      (reach_of_pos pk (fun _ => par.hK1) _ (fun k hk => by subst hk; exact nk _ pk))
-    rw [← hso] at ka kb
-    rw [← hsk] at kc
-    obtain ⟨a1, a2, _⟩ := ka
-    obtain ⟨b1, b2, _⟩ := kb
-    obtain ⟨c1, c2, _⟩ := kc
-    refine ⟨par, bm, clean, a1, b1, c1, ?_, fun _ => ebm⟩
-    show (s.misapplied || _ || _ || _) = false
-    rw [noMis, a2, b2, c2]; rfl
-
-/-- `next_desired_segments` only sets `all_segments_complete` -/
-theorem want_inv (No Nk : Nat) (s : St) (max : Nat) (hi : Inv No Nk s) :
-    Inv No Nk (s.nextDesiredSegments max).1 := by
-  obtain ⟨par, bm, clean, out, rp, ker, noMis, fin⟩ := hi
-  exact ⟨par, bm, clean, out, rp, ker, noMis, fin⟩
-
-/-! ## the measure -/
-
-/-- `remaining` in the vocabulary of the invariant -/
-theorem remaining_eq (No Nk : Nat) (s : St) (hi : Inv No Nk s) :
-    s.remaining = (Dsg.expectedChunks No - s.bm.leaves) + (if s.bitmapCache then 0 else 1) +
-      (No - s.out.leaves) + (No - s.rp.leaves) + (Nk - s.ker.leaves) := by
-  have par := hi.par
-  unfold St.remaining Tree.leaves
-  have e1 : s.bmLeafCount = Dsg.expectedChunks No := par.bmc
-  have e2 : s.outSize = mmr No := par.out
-  have e3 : s.kerSize = mmr Nk := par.ker
-  rw [e1, e2, e3, nLeaves_mmr, nLeaves_mmr]
-
-/-- `check_progress` says "complete" exactly when nothing remains -/
-theorem checkProgress_iff (No Nk : Nat) (s : St) (hi : Inv No Nk s) :
-    s.checkProgress = true ↔ s.remaining = 0 := by
-  rw [remaining_eq No Nk s hi]
-  obtain ⟨par, bm, _, out, rp, ker, _, fin⟩ := hi
-  have hb := bm.leaves_le
-  have ho := out.leaves_le
-  have hr := rp.leaves_le
-  have hk := ker.leaves_le
-  unfold St.checkProgress
-  have e2 : s.outSize = mmr No := par.out
-  have e3 : s.kerSize = mmr Nk := par.ker
-  rw [e2, e3, out.size_eq, rp.size_eq, ker.size_eq]
-  simp only [Bool.and_eq_true, beq_iff_eq, mmr_eq_iff]
-  constructor
-  · rintro ⟨⟨⟨h1, h2⟩, h3⟩, h4⟩
-    have := fin h4
-    rw [h4]; simp only [if_true]; omega
-  · intro h
-    by_cases hc : s.bitmapCache = true
-    · rw [hc] at h; simp only [if_true] at h
-      exact ⟨⟨⟨by omega, by omega⟩, by omega⟩, hc⟩
-    · have : s.bitmapCache = false := by simpa using hc
-      rw [this] at h; simp at h
-
-/-- `apply_next_segments` never loses a leaf of any tree and never un-finalises the bitmap -/
-theorem apply_mono (No Nk : Nat) (s : St) (hi : Inv No Nk s) :
-    s.bm.leaves ≤ s.applyNextSegments.bm.leaves ∧ s.out.leaves ≤ s.applyNextSegments.out.leaves ∧
-      s.rp.leaves ≤ s.applyNextSegments.rp.leaves ∧ s.ker.leaves ≤ s.applyNextSegments.ker.leaves ∧
-      (s.bitmapCache = true → s.applyNextSegments.bitmapCache = true) := by
-  obtain ⟨nb, no, nr, nk⟩ := next_values No Nk s hi
-  obtain ⟨par, bm, clean, out, rp, ker, noMis, fin⟩ := hi
-  have hcs := chunks_small No par.NoS
-  obtain ⟨ob, pb⟩ := bm.pos'
-  have hnb := nb ob pb
-  unfold St.applyNextSegments
-  rw [hnb]
-  cases ob with
-  | some k =>
-    simp only [St.applyNextWith]
-    cases hr : removeFirstIdx s.bm.cache k with
-    | none => exact ⟨Nat.le_refl _, Nat.le_refl _, Nat.le_refl _, Nat.le_refl _, fun h => h⟩
-    | some pr =>
-      obtain ⟨c, rest⟩ := pr
-      obtain ⟨hc, hci, hrest⟩ := removeFirstIdx_mem _ _ _ _ hr
-      simp only
-      have hbs : s.bmSize = mmr (Dsg.expectedChunks No) := par.bms
-      have key := applyBitmapSeg_ok s.hB (Dsg.expectedChunks No) k s.bm c rest par.hB hcs bm pb
-        (bm.own c hc) hci (clean c hc) hrest
-      rw [← hbs] at key
-      obtain ⟨_, b, _⟩ := key
-      exact ⟨Nat.le_of_lt b, Nat.le_refl _, Nat.le_refl _, Nat.le_refl _, fun h => h⟩
-  | none =>
-    simp only [St.applyNextWith]
-    obtain ⟨oo, po⟩ := out.pos'
-    obtain ⟨orr, pr⟩ := rp.pos'
-    obtain ⟨ok', pk⟩ := ker.pos'
-    have hso : s.outSize = mmr No := par.out
-    have hsk : s.kerSize = mmr Nk := par.ker
-    have ka := applyTree_ok true true s.hO No (s.nextRequired .output) s.out out
-      (reach_of_pos po (fun _ => par.hO1) _ (fun k hk => by subst hk; exact no k po))
-    have kb := applyTree_ok true true s.hR No (s.nextRequired .rangeproof) s.rp rp
-      (reach_of_pos pr (fun _ => par.hR1) _ (fun k hk => by subst hk; exact nr k pr))
-    have kc := applyTree_ok false true s.hK Nk (s.nextRequired .kernel) s.ker ker
-      (reach_of_pos pk (fun _ => par.hK1) _ (fun k hk => by subst hk; exact nk _ pk))
-    rw [← hso] at ka kb
-    rw [← hsk] at kc
-    exact ⟨Nat.le_refl _, ka.2.2, kb.2.2, kc.2.2, fun _ => trivial⟩
-
-theorem apply_remaining_le (No Nk : Nat) (s : St) (hi : Inv No Nk s) :
-    s.applyNextSegments.remaining ≤ s.remaining := by
-  have hi' := apply_inv No Nk s hi
-  obtain ⟨m1, m2, m3, m4, m5⟩ := apply_mono No Nk s hi
-  rw [remaining_eq No Nk _ hi', remaining_eq No Nk s hi]
-  have : (if s.applyNextSegments.bitmapCache = true then 0 else 1) ≤ (if s.bitmapCache = true then 0 else 1) := by
-    by_cases hc : s.bitmapCache = true
-    · rw [if_pos hc, if_pos (m5 hc)]; exact Nat.le_refl _
-    · rw [if_neg hc]; split <;> omega
-  omega
-
 end GV.Deseg
